@@ -917,6 +917,15 @@ class Proc:
         self.p = None
 
 
+LAST_LIFT_FAIL = {}
+
+
+def heap_shape(t):
+    """coarse shape of a type for violation keys: which buffer-carrying constructors it contains"""
+    ks = kinds_of(t) & {"string", "list", "map", "fixed"}
+    return "+".join(sorted(ks)) or "scalar"
+
+
 class Oracle:
     """The canonical-ABI oracle (Coq Canon/Spec.v extracted; ocaml/abi_driver.ml `SPEC` service)."""
     def __init__(self, exe):
@@ -960,7 +969,18 @@ class Oracle:
 
     @staticmethod
     def r_lift(r):
-        return None if r == "TRAP" else parse_value(r)
+        """answer of `SPEC lift` -> value, or None when the oracle cannot lift (TRAP = the encoding is ill-formed per the spec;
+        MODEL-EXN/anything unparsable = the oracle itself gave up, e.g. a garbage length of 2^60 elements).  The reason is kept
+        per thread for the finding text."""
+        import threading
+        if r == "TRAP":
+            LAST_LIFT_FAIL[threading.get_ident()] = "TRAP"
+            return None
+        try:
+            return parse_value(r)
+        except Exception:
+            LAST_LIFT_FAIL[threading.get_ident()] = r[:200]
+            return None
 
     def layout(self, t):
         s = sx(t)
@@ -988,11 +1008,8 @@ class Oracle:
         return flat, writes, int(nx[5:])
 
     def lift(self, t, mode, src, segs):
-        """-> value or None (trap)"""
-        r = self.ask("lift", PW, sx(t), mode, src, segs)
-        if r == "TRAP":
-            return None
-        return parse_value(r)
+        """-> value or None (trap / oracle failure, see r_lift)"""
+        return Oracle.r_lift(self.ask("lift", PW, sx(t), mode, src, segs))
 
     def close(self):
         self.proc.close()
@@ -1586,7 +1603,10 @@ class Runner:
 
     def _compare(self, F, where, t, sent, got, text):
         if got is None:
-            F.append(Finding("value", where, "the host cannot lift it (trap); %s" % (text % (show(sent), "TRAP")), where + ":trap"))
+            import threading
+            why = LAST_LIFT_FAIL.get(threading.get_ident(), "TRAP")
+            F.append(Finding("value", where, "the spec host cannot lift what the generated code produced (%s); %s" % (why, text % (show(sent), why)),
+                             where + ":lift-of-guest-memory-failed:" + heap_shape(t)))
         elif canon(t, got) != canon(t, sent):
             F.append(Finding("value", where, text % (show(sent), show(got)), where + ":" + class_of_path(diff_path(t, canon(t, sent), canon(t, got)))))
 
